@@ -149,7 +149,7 @@ def run(ctx):
         vlib.write_ndjson(ps, gside)
         total += vlib.check_trace(ctx, "Trace_BP.tla", "Trace.cfg", pm, sig_of,
                                   group_key=lambda e: e.get("e") == "build", timeout=2400, selftest=(i == 0))
-        if gside:
+        if gside and not (os.environ.get("C04_DEV_FAST") and ctx.violations):
             total += vlib.check_trace(ctx, "Trace_BP.tla", "Trace.cfg", ps, sig_of,
                                       group_key=lambda e: e.get("e") == "build", timeout=2400, selftest=False)
             ctx.add("defect_prone_calls_validated_separately", sum(1 for e in gside if e["e"] == "q"))
